@@ -137,3 +137,66 @@ package types
 //@   invariant #1 hops_valid_so_far: forall j int :: 0 <= j && j <= rangeindex ==> d.Trace[j].Validate() == nil
 //@   ensures base_not_blank: err == nil ==> strings.TrimSpace(d.Base) != ""
 //@   ensures hops_valid: forall j int :: err == nil && 0 <= j && j < len(d.Trace) ==> d.Trace[j].Validate() == nil
+
+// ---- bank ledger effects of the keepers the transfer module depends on (C31, C32, C49). The ledger is the ghost
+// component w_led of the world: balances per (address, denomination) and supply per denomination. Every call site in
+// the transfer keeper passes sdk.NewCoins(coin): at most one coin (precondition, checked at each call).
+
+//@ spec func moduleAddr(name string) string
+
+//@ contract interface AccountKeeper.GetModuleAddress
+//@   pure
+//@   ensures str(result) == moduleAddr(name)
+
+//@ contract interface BankKeeper.SendCoins
+//@   requires single_coin: len(amt) <= 1
+//@   modifies world(ctx)
+//@   ensures failed_unchanged: err != nil ==> world(ctx) == old(world(ctx))
+//@   ensures moved: err == nil ==> world(ctx) == withLedger(old(world(ctx)), ite(len(amt) == 0, old(ledger(ctx)), lmove(old(ledger(ctx)), str(fromAddr), str(toAddr), amt[0].Denom, amt[0].Amount)))
+//@   ensures funded: err == nil && len(amt) == 1 ==> bal(old(ledger(ctx)), str(fromAddr), amt[0].Denom) >= amt[0].Amount
+
+//@ contract interface BankKeeper.SendCoinsFromAccountToModule
+//@   requires single_coin: len(amt) <= 1
+//@   modifies world(ctx)
+//@   ensures failed_unchanged: err != nil ==> world(ctx) == old(world(ctx))
+//@   ensures moved: err == nil ==> world(ctx) == withLedger(old(world(ctx)), ite(len(amt) == 0, old(ledger(ctx)), lmove(old(ledger(ctx)), str(senderAddr), moduleAddr(recipientModule), amt[0].Denom, amt[0].Amount)))
+//@   ensures funded: err == nil && len(amt) == 1 ==> bal(old(ledger(ctx)), str(senderAddr), amt[0].Denom) >= amt[0].Amount
+
+//@ contract interface BankKeeper.MintCoins
+//@   requires single_coin: len(amt) <= 1
+//@   modifies world(ctx)
+//@   ensures failed_unchanged: err != nil ==> world(ctx) == old(world(ctx))
+//@   ensures minted: err == nil ==> world(ctx) == withLedger(old(world(ctx)), ite(len(amt) == 0, old(ledger(ctx)), lmint(old(ledger(ctx)), moduleAddr(moduleName), amt[0].Denom, amt[0].Amount)))
+
+//@ contract interface BankKeeper.BurnCoins
+//@   requires single_coin: len(amt) <= 1
+//@   modifies world(ctx)
+//@   ensures failed_unchanged: err != nil ==> world(ctx) == old(world(ctx))
+//@   ensures burned: err == nil ==> world(ctx) == withLedger(old(world(ctx)), ite(len(amt) == 0, old(ledger(ctx)), lburn(old(ledger(ctx)), moduleAddr(moduleName), amt[0].Denom, amt[0].Amount)))
+//@   ensures funded: err == nil && len(amt) == 1 ==> bal(old(ledger(ctx)), moduleAddr(moduleName), amt[0].Denom) >= amt[0].Amount
+
+//@ contract interface BankKeeper.BlockedAddr
+//@   pure
+
+//@ contract interface BankKeeper.IsSendEnabledCoins
+//@   ensures true
+
+//@ contract interface BankKeeper.HasDenomMetaData
+//@   ensures true
+
+//@ contract interface BankKeeper.SetDenomMetaData
+//@   modifies world(ctx)
+//@   ensures bank_metadata_only: sameStoresAndLedger(old(world(ctx)), world(ctx))
+
+//@ contract UnmarshalPacketData
+//@   pure
+//@   trusted decoding (JSON / protobuf / ABI) is a deterministic function of the bytes, version and encoding; its result is not interpreted
+
+//@ contract interface BankKeeper.SpendableCoin
+//@   ensures true
+
+//@ contract interface ChannelKeeper.GetChannel
+//@   ensures true
+
+//@ contract (FungibleTokenPacketData).ValidateBasic
+//@   ensures true
